@@ -6,7 +6,7 @@
     per goroutine. Side conditions of every theorem: [pending0 = true -> fresh0 = false] (Add
     stores "stale") and every entry point is L0 or L1. *)
 From Coq Require Import List Bool Arith.
-From Geo Require Import Model.Conc Model.Lazy Proofs.C13_Index Proofs.C14_Protocol Proofs.C14_Apply.
+From Geo Require Import Model.Conc Model.Lazy Proofs.C13_Index Proofs.C13_EdgeQuery Proofs.C14_Protocol Proofs.C14_Apply.
 Import ListNotations.
 
 Theorem mutex : forall n b0 fresh0 pending0 entries todos earlies,
@@ -101,3 +101,38 @@ Theorem no_lock_refuted :
                   two_writers s = true.
 Proof. exact C14_Protocol.no_lock_refuted. Qed.
 Print Assumptions no_lock_refuted.
+
+(** "each with its own query object": two EdgeQuery objects built from ONE options value share
+    that struct (the constructors keep the pointer). While goroutine A is inside
+    IsDistanceLess(tA, l) on its object, a whole call [ob] of goroutine B on its own object
+    answers exactly as a fresh query object with the caller's options does, and so does A:
+    a query call writes only heap cells it allocated itself ([qstep_no_shared_write]). *)
+Theorem own_query_objects_shared_options : forall (D Ix T R C : Type) straight expand counts threshold cover_of
+    (search : Ix -> T -> @opts D -> @path C -> list R) dflt (qa qb : @equery D Ix R C) ix u tA l (ob : @qop D Ix T),
+  good counts cover_of dflt qa ix u -> good counts cover_of dflt qb ix u -> eheap qb = eheap qa -> uptr qb = uptr qa ->
+  is_query_op ob = true ->
+  interleave_new straight expand counts threshold cover_of search dflt qa qb tA l ob
+  = Ok (fresh_answer straight expand counts threshold cover_of search ix u ob,
+        match hd_error (firstn 1 (search ix tA (with_max1 (threshold_opts straight u l))
+                                         (fresh_path counts threshold cover_of ix tA (with_max1 (threshold_opts straight u l))))) with
+        | Some _ => true | None => false end).
+Proof. exact @C13_EdgeQuery.own_query_objects_shared_options. Qed.
+Print Assumptions own_query_objects_shared_options.
+
+Theorem query_writes_only_private_cells : forall (D Ix T R C : Type) straight expand counts threshold cover_of
+    (search : Ix -> T -> @opts D -> @path C -> list R) dflt (q : @equery D Ix R C) ix u (o : @qop D Ix T),
+  good counts cover_of dflt q ix u -> is_query_op o = true ->
+  exists q', qstep_new straight expand counts threshold cover_of search dflt q o
+             = Ok (q', fresh_answer straight expand counts threshold cover_of search ix u o) /\
+             good counts cover_of dflt q' ix u /\ length (eheap q) <= length (eheap q') /\
+             (forall k, k < length (eheap q) -> hget dflt k (eheap q') = hget dflt k (eheap q)).
+Proof. exact @C13_EdgeQuery.qstep_no_shared_write. Qed.
+Print Assumptions query_writes_only_private_cells.
+
+(** the seeded in-place override with restore is refuted by this interleaving *)
+Theorem shared_options_inplace_refuted :
+  let q := eq_new [1; 2; 3; 4; 5] toy_u in
+  toy_inter_new q q tt 3 (QFindEdges tt) = Ok ([OutEdges [1; 2; 3; 4; 5]], true) /\
+  toy_inter_inplace q q tt 3 (QFindEdges tt) = Ok ([OutEdges [1]], true).
+Proof. exact C13_EdgeQuery.shared_options_inplace_refuted. Qed.
+Print Assumptions shared_options_inplace_refuted.
